@@ -731,6 +731,9 @@ func (ge *GuardEngine) returnsBoundedBy(fn *ssa.Function, bound int64) bool {
 			}
 			return false
 		}
+		if minBoundedBy(v, bound) {
+			continue
+		}
 		saved := ge.pv.loadCtx
 		ge.pv.loadCtx = []ssa.Instruction{r}
 		a := ge.pv.Atom(v, nil)
@@ -747,4 +750,41 @@ func (ge *GuardEngine) returnsBoundedBy(fn *ssa.Function, bound int64) bool {
 		}
 	}
 	return true
+}
+
+// minBoundedBy: v is (a widening or same-width conversion of) the builtin min over unsigned operands one of
+// which is a constant <= bound; the result is then within [0, bound].
+func minBoundedBy(v ssa.Value, bound int64) bool {
+	for {
+		cv, ok := v.(*ssa.Convert)
+		if !ok {
+			break
+		}
+		from, _ := cv.X.Type().Underlying().(*types.Basic)
+		to, _ := cv.Type().Underlying().(*types.Basic)
+		if from == nil || to == nil || from.Info()&types.IsInteger == 0 || to.Info()&types.IsInteger == 0 || bound > 127 {
+			return false
+		}
+		v = cv.X
+	}
+	call, ok := v.(*ssa.Call)
+	if !ok {
+		return false
+	}
+	b, ok := call.Call.Value.(*ssa.Builtin)
+	if !ok || b.Name() != "min" {
+		return false
+	}
+	bt, _ := call.Type().Underlying().(*types.Basic)
+	if bt == nil || bt.Info()&types.IsUnsigned == 0 {
+		return false
+	}
+	for _, a := range call.Call.Args {
+		if k, ok := a.(*ssa.Const); ok && k.Value != nil {
+			if n, ok := constant.Int64Val(k.Value); ok && n >= 0 && n <= bound {
+				return true
+			}
+		}
+	}
+	return false
 }
